@@ -48,6 +48,42 @@ func runC13(r *Run) {
 		})
 	}
 	r.Floor("R1", "callers of MintCoins/MintAndAllocate", n, 2)
+	// the helper mints exactly the coin it is given: no adjustment from balances it reads itself
+	if mh, ok := P.FnOK("(" + ck + ".Keeper).MintCoins"); ok {
+		var coinP *ssa.Parameter
+		for _, p := range mh.Params {
+			if p.Name() == "coin" || namedName(p.Type()) == "Coin" {
+				coinP = p
+			}
+		}
+		okExact, nMint := true, 0
+		eachCall(mh, func(ci CallInfo) {
+			if ci.Name != "MintCoins" || ci.Static == mh {
+				return
+			}
+			nMint++
+			a := ci.Instr.Common().Args
+			sl := backSlice(a[len(a)-1])
+			if coinP == nil || !sl.Has(coinP) {
+				okExact = false
+			}
+			sl.Any(func(v ssa.Value) bool {
+				switch x := v.(type) {
+				case *ssa.Phi:
+					okExact = false
+				case *ssa.Call:
+					if n := callInfo(x).Name; n != "NewCoins" {
+						okExact = false
+					}
+				}
+				return false
+			})
+		})
+		r.Check(okExact && nMint == 1, "R1", fnID(mh)+"#mints-its-parameter", P.Pos(fnPos(mh)), "bank MintCoins(NewCoins(coin)) with the parameter itself",
+			"the coinomics mint helper mints something other than the coin it was handed (reduced by a balance it reads, merged, recomputed): the chain no longer mints the formula amount that MintAndAllocate computed and sends on")
+	} else {
+		r.Bad("R1", "anchor/coinomics Keeper.MintCoins", "", "not found")
+	}
 	// the mint clock has two writers only: MintAndAllocate (block time) and EndBlocker (zero while disabled).
 	// Anything else — in particular restoring it from a genesis file — makes the first block after the
 	// restart mint for the whole gap (or never advance), against 'elapsed between consecutive block timestamps'.
